@@ -433,6 +433,26 @@ func checkDuplicateHitsRedirect(c *Ctx) {
 						if mu, ok := in.(*ssa.MapUpdate); ok && typeNameOf(mu.Map.Type()) == "Dict" {
 							done = true
 						}
+						// a helper that stores into a Dict it was handed (redirect(rDict, rName, ...))
+						if cc, ok := in.(*ssa.Call); ok {
+							if g := staticCallee(cc); g != nil && isSubject(g) && g.Blocks != nil {
+								takesDict := false
+								for _, a := range cc.Call.Args {
+									if typeNameOf(a.Type()) == "Dict" {
+										takesDict = true
+									}
+								}
+								if takesDict {
+									eachInstr(g, func(_ *ssa.BasicBlock, _ int, gi ssa.Instruction) {
+										if mu, ok := gi.(*ssa.MapUpdate); ok && typeNameOf(mu.Map.Type()) == "Dict" {
+											if _, isPrm := mu.Map.(*ssa.Parameter); isPrm {
+												done = true
+											}
+										}
+									})
+								}
+							}
+						}
 					}
 					switch t := b.Instrs[len(b.Instrs)-1].(type) {
 					case *ssa.Return:
